@@ -174,7 +174,12 @@ class FakeListener:
 
 
 class FakeMethod:
+    next_dst = None      # (ip text, port) the next accepted connection was dialled to, if the scenario says
+
     def get_tcp_dstip(self, sock):
+        if self.next_dst is not None:
+            d, self.next_dst = self.next_dst, None
+            return d
         return ('192.0.2.%d' % (sock.n % 250 + 1), 80)
 
 
@@ -328,9 +333,13 @@ class RealTunnel:
             self.died = '%s: %s: %s' % (who, type(e).__name__, e)
 
     # ------------------------------------------------------------ steps
-    def accept(self):
+    def accept(self, dst=None):
+        """dst = (family, ip text, port) the application dialled (default: an IPv4 documentation address)."""
         f = FlowRec(None)
         s = FakeSocket(f.app, 'app')
+        if dst is not None:
+            s.family = dst[0]
+            self.method.next_dst = (dst[1], dst[2])
         f.app_sock = s
         self.listener.next = s
         n0 = len(self.chandlers)
@@ -635,7 +644,7 @@ class Script:
             self.outs.append('quiet=%d' % (1 if t.quiet() else 0))
             return True
         if k == 'accept':
-            payload = t.accept()
+            payload = t.accept(tuple(st[1:4]) if len(st) >= 4 else None)
             line = 'accept %s' % hexb(payload if payload is not None else b'')
         elif k == 'cb':
             _, end, i, iov = st
